@@ -1,8 +1,13 @@
 // Package c16 decides C16: lists.Queue is FIFO and lists.Stack is LIFO.
+//
+// Files: c16_test.go (model engine, explicit op-list cases: C16.enum, C16.types, C16.queue, C16.stack),
+// elems_test.go (the element types), phases_test.go (long phase histories: C16.phases.queue, C16.phases.stack,
+// C16.grid, C16.pair).
 package c16
 
 import (
 	"fmt"
+	"strings"
 	"testing"
 
 	"gopkg.in/typ.v4/lists"
@@ -26,20 +31,31 @@ type Op struct {
 
 // Case is one history on one fresh container.
 //
-// Kind: "queue" (zero-value Queue[int]), "queue-str" (zero-value Queue[string]),
-// "stack-nil" (var s Stack[int], nil), "stack-empty" (Stack[int]{}, non-nil),
-// "stack-cap" (make(Stack[int],0,4): spare capacity), "stack-str" (nil Stack[string]).
+// Kind is "<container>/<element type>", container one of "queue" (zero-value Queue), "stack-nil" (var s Stack),
+// "stack-empty" (Stack{}, non-nil), "stack-cap" (make(Stack,0,4): spare capacity), "stack-cap100"; the element
+// types are listed in elems_test.go. The first generation of names is still understood: "queue" (= queue/int),
+// "queue-str" (= queue/string), "stack-nil", "stack-empty", "stack-cap" (int) and "stack-str" (= stack-nil/string).
+//
+// Quiet: the harness makes no observing calls (Len, Peek) of its own after each operation, so that the history
+// contains exactly the listed calls (a Peek or Len between two operations could hide or repair state).
 type Case struct {
-	Kind string `json:"kind"`
-	Ops  []Op   `json:"ops"`
+	Kind  string `json:"kind"`
+	Quiet bool   `json:"quiet,omitempty"`
+	Ops   []Op   `json:"ops"`
 }
 
-var kinds = []string{"queue", "queue-str", "stack-nil", "stack-empty", "stack-cap", "stack-str"}
+var legacyKinds = []string{"queue", "queue-str", "stack-nil", "stack-empty", "stack-cap", "stack-str"}
 
-const rule = "one fresh container per case (zero-value Queue[int]/Queue[string]; nil, empty, spare-capacity Stack[int]; nil Stack[string]); " +
-	"ops Insert v/Remove/Peek/Len executed against a slice model (FIFO for Queue, LIFO for Stack); after EVERY call: returned value and ok flag, " +
+var containers = []string{"queue", "stack-nil", "stack-empty", "stack-cap", "stack-cap100"}
+
+const rule = "one fresh container per case (zero-value Queue[E]; nil, empty, spare-capacity Stack[E]) for E among 25 element types of sizes 0,1,2,3,7,8,12,16,24,32,40,50,100,320 bytes " +
+	"(ints incl. values next to MinInt/MaxInt, string, float64 incl. -0.0/NaN/Inf compared by bits, [3]byte, [3]int32, [5]int64, 3-word struct with own methods, slices (nil, empty, shared backing; compared by pointer+len+cap), " +
+	"non-comparable struct, map, func, pointer, interface holding comparable and non-comparable values, struct{}, [0]int, [40]int64); " +
+	"ops Insert v/Remove/Peek/Len executed against a slice model (FIFO for Queue, LIFO for Stack); after EVERY call (except in quiet cases, where only the listed calls are made): returned value and ok flag, " +
 	"Len == model size, Peek == (what the next removal will return, true) and removes nothing, on empty Remove/Peek == (zero,false) and the container " +
-	"stays empty and usable; non-trivial = at least 10 ops and at least 2 drain-to-empty events each followed by a refill"
+	"stays empty and usable"
+
+const ruleNT = "; non-trivial = at least 10 ops and at least 2 drain-to-empty events each followed by a refill"
 
 // box hides Queue vs Stack behind closures over one fresh container.
 type box[E any] struct {
@@ -59,173 +75,283 @@ func stackBox[E any](s lists.Stack[E]) box[E] {
 	return box[E]{ins: p.Push, rem: p.Pop, peek: p.Peek, size: func() int { return len(*p) }}
 }
 
-var words = []string{"", "a", "b", "c", "d", "e", "f", "g"}
+// stats is what the engine records about one container's history.
+type stats struct {
+	calls                  int // library calls requested by the case (not the harness's own observers)
+	inserts, removals      int
+	drains, drainsRefilled int
+	pendingDrain           bool
+	emptyRemove, emptyPeek bool
+	zeroInserted           bool
+	maxLen                 int
+	evals                  int
+	drainAtMult64          bool // drained to empty when the number of values ever inserted was a positive multiple of 64
+	slidHigh               int  // removals performed while at least 32 values stayed inside and values had been inserted after the previous removal
+}
 
-func strOf(v int) string {
-	if v == 0 {
+// engine is one container plus its model; every method returns "" or a violation text.
+type engine interface {
+	insert(i, v int) string
+	remove(i int) string
+	peek(i int) string
+	length(i int) string
+	check(i int, what string, withArg bool) string
+	size() int
+	st() *stats
+}
+
+type eng[E any] struct {
+	tag   string // case kind (+ container index), leads every message
+	b     box[E]
+	fifo  bool
+	quiet bool
+	conv  func(int) E
+	eq    func(a, b E) bool
+	model []E
+	lastWasInsert bool
+	stats
+}
+
+func (e *eng[E]) st() *stats { return &e.stats }
+func (e *eng[E]) size() int  { return len(e.model) }
+
+func (e *eng[E]) names() (string, string) {
+	if e.fifo {
+		return "Enqueue", "Dequeue"
+	}
+	return "Push", "Pop"
+}
+
+// show prints the model, oldest first, shortened to both ends when long.
+func (e *eng[E]) show() string {
+	m := e.model
+	if len(m) <= 12 {
+		return fmt.Sprintf("%v", m)
+	}
+	return fmt.Sprintf("(%d values) %v ... %v", len(m), m[:6], m[len(m)-6:])
+}
+
+// call renders "Name(arg)" for messages.
+func (e *eng[E]) call(what string, withArg bool) string {
+	if what == "fresh container" {
+		return what
+	}
+	if !withArg || len(e.model) == 0 {
+		return what + "()"
+	}
+	return fmt.Sprintf("%s(%v)", what, e.model[len(e.model)-1])
+}
+
+// next is what the next removal must return.
+func (e *eng[E]) next() (E, bool) {
+	if len(e.model) == 0 {
+		var zero E
+		return zero, false
+	}
+	if e.fifo {
+		return e.model[0], true
+	}
+	return e.model[len(e.model)-1], true
+}
+
+// check is the invariant evaluated after every call: Len, Peek (twice: it must not remove), Len again.
+//
+// what/withArg describe the call just made (withArg: an insertion, its argument is the newest model value);
+// the text is only built on failure.
+func (e *eng[E]) check(i int, what string, withArg bool) string {
+	if e.quiet {
 		return ""
 	}
-	if v < 0 {
-		v = -v
+	_, remName := e.names()
+	if got := e.b.size(); got != len(e.model) {
+		return fmt.Sprintf("%s op %d (%s): Len = %d, want %d (model %s)", e.tag, i, e.call(what, withArg), got, len(e.model), e.show())
 	}
-	return fmt.Sprintf("%s%d", words[v%len(words)], v)
+	wv, wok := e.next()
+	for rep := 0; rep < 2; rep++ {
+		gv, gok := e.b.peek()
+		if gok != wok || !e.eq(gv, wv) {
+			return fmt.Sprintf("%s op %d (%s): Peek #%d afterwards = (%v,%v), want (%v,%v) = what the next %s returns (model %s)",
+				e.tag, i, e.call(what, withArg), rep+1, gv, gok, wv, wok, remName, e.show())
+		}
+	}
+	if got := e.b.size(); got != len(e.model) {
+		return fmt.Sprintf("%s op %d (%s): Len after Peek = %d, want %d: Peek removed or added something (model %s)", e.tag, i, e.call(what, withArg), got, len(e.model), e.show())
+	}
+	e.evals += 4
+	return ""
 }
 
-func Run(c Case) pbt.Outcome {
-	switch c.Kind {
-	case "queue":
-		return run(c, queueBox[int](), true, func(v int) int { return v })
-	case "queue-str":
-		return run(c, queueBox[string](), true, strOf)
-	case "stack-nil":
-		var s lists.Stack[int]
-		return run(c, stackBox(s), false, func(v int) int { return v })
-	case "stack-empty":
-		return run(c, stackBox(lists.Stack[int]{}), false, func(v int) int { return v })
-	case "stack-cap":
-		return run(c, stackBox(make(lists.Stack[int], 0, 4)), false, func(v int) int { return v })
-	case "stack-str":
-		var s lists.Stack[string]
-		return run(c, stackBox(s), false, strOf)
+func (e *eng[E]) insert(i, v int) string {
+	insName, _ := e.names()
+	x := e.conv(v)
+	e.b.ins(x)
+	e.model = append(e.model, x)
+	e.calls++
+	e.inserts++
+	e.evals++
+	e.lastWasInsert = true
+	if v == 0 {
+		e.zeroInserted = true
 	}
-	return pbt.Fail("malformed case: unknown kind %q", c.Kind)
+	if e.pendingDrain {
+		e.pendingDrain = false
+		e.drainsRefilled++
+	}
+	if len(e.model) > e.maxLen {
+		e.maxLen = len(e.model)
+	}
+	return e.check(i, insName, true)
 }
 
-func run[E comparable](c Case, b box[E], fifo bool, conv func(int) E) pbt.Outcome {
-	var zero E
-	var model []E
-	insName, remName := "Push", "Pop"
-	if fifo {
-		insName, remName = "Enqueue", "Dequeue"
+func (e *eng[E]) remove(i int) string {
+	_, remName := e.names()
+	wv, wok := e.next()
+	gv, gok := e.b.rem()
+	e.calls++
+	e.evals++
+	if gok != wok || !e.eq(gv, wv) {
+		return fmt.Sprintf("%s op %d: %s() = (%v,%v), want (%v,%v); model before the call (oldest first): %s", e.tag, i, remName, gv, gok, wv, wok, e.show())
 	}
-	// next is what the next removal must return.
-	next := func() (E, bool) {
-		if len(model) == 0 {
-			return zero, false
+	if wok {
+		e.removals++
+		if e.fifo {
+			var zero E
+			e.model[0] = zero
+			e.model = e.model[1:]
+		} else {
+			e.model = e.model[:len(e.model)-1]
 		}
-		if fifo {
-			return model[0], true
+		if e.lastWasInsert && len(e.model) >= 32 {
+			e.slidHigh++
 		}
-		return model[len(model)-1], true
-	}
-	var (
-		drains, drainsRefilled int
-		pendingDrain           bool
-		emptyRemove, emptyPeek bool
-		zeroInserted           bool
-		maxLen                 int
-		removals               int
-	)
-	evals := 0
-	// invariant checked after every call: Len, Peek (twice: it must not remove), Len again.
-	check := func(i int, what string) string {
-		if got := b.size(); got != len(model) {
-			return fmt.Sprintf("%s op %d (%s): Len = %d, want %d (model %v)", c.Kind, i, what, got, len(model), model)
-		}
-		wv, wok := next()
-		for rep := 0; rep < 2; rep++ {
-			gv, gok := b.peek()
-			if gok != wok || gv != wv {
-				return fmt.Sprintf("%s op %d (%s): Peek #%d afterwards = (%v,%v), want (%v,%v) = what the next %s returns (model %v)",
-					c.Kind, i, what, rep+1, gv, gok, wv, wok, remName, model)
+		if len(e.model) == 0 {
+			e.drains++
+			e.pendingDrain = true
+			if e.inserts%64 == 0 {
+				e.drainAtMult64 = true
 			}
 		}
-		if got := b.size(); got != len(model) {
-			return fmt.Sprintf("%s op %d (%s): Len after Peek = %d, want %d: Peek removed or added something (model %v)", c.Kind, i, what, got, len(model), model)
-		}
-		evals += 4
-		return ""
+	} else {
+		e.emptyRemove = true
 	}
-	if m := check(-1, "fresh container"); m != "" {
+	e.lastWasInsert = false
+	return e.check(i, remName, false)
+}
+
+func (e *eng[E]) peek(i int) string {
+	wv, wok := e.next()
+	gv, gok := e.b.peek()
+	e.calls++
+	e.evals++
+	if gok != wok || !e.eq(gv, wv) {
+		return fmt.Sprintf("%s op %d: Peek() = (%v,%v), want (%v,%v); model (oldest first): %s", e.tag, i, gv, gok, wv, wok, e.show())
+	}
+	if !wok {
+		e.emptyPeek = true
+	}
+	return e.check(i, "Peek", false)
+}
+
+func (e *eng[E]) length(i int) string {
+	e.calls++
+	e.evals++
+	if got := e.b.size(); got != len(e.model) {
+		return fmt.Sprintf("%s op %d: Len() = %d, want %d; model: %s", e.tag, i, got, len(e.model), e.show())
+	}
+	return e.check(i, "Len", false)
+}
+
+// splitKind resolves a kind name into container and element type.
+func splitKind(kind string) (container, elem string, ok bool) {
+	switch kind {
+	case "queue", "stack-nil", "stack-empty", "stack-cap":
+		return kind, "int", true
+	case "queue-str":
+		return "queue", "string", true
+	case "stack-str":
+		return "stack-nil", "string", true
+	}
+	i := strings.IndexByte(kind, '/')
+	if i < 0 {
+		return "", "", false
+	}
+	return kind[:i], kind[i+1:], true
+}
+
+// newEngine builds a fresh container of the given kind; nil if the kind is unknown.
+func newEngine(kind, tag string, quiet bool) engine {
+	container, elem, ok := splitKind(kind)
+	if !ok {
+		return nil
+	}
+	et, ok := elemByName[elem]
+	if !ok {
+		return nil
+	}
+	return et.mk(tag, container, quiet)
+}
+
+func isQueue(kind string) bool { return strings.HasPrefix(kind, "queue") }
+
+func Run(c Case) pbt.Outcome {
+	e := newEngine(c.Kind, c.Kind, c.Quiet)
+	if e == nil {
+		return pbt.Fail("malformed case: unknown kind %q", c.Kind)
+	}
+	if m := e.check(-1, "fresh container", false); m != "" {
 		return pbt.Fail("%s", m)
 	}
 	for i, op := range c.Ops {
-		var what string
+		var m string
 		switch ((op.K % nOps) + nOps) % nOps {
 		case opInsert:
-			v := conv(op.V)
-			what = fmt.Sprintf("%s(%v)", insName, v)
-			b.ins(v)
-			model = append(model, v)
-			if v == zero {
-				zeroInserted = true
-			}
-			if pendingDrain {
-				pendingDrain = false
-				drainsRefilled++
-			}
-			if len(model) > maxLen {
-				maxLen = len(model)
-			}
+			m = e.insert(i, op.V)
 		case opRemove:
-			what = remName + "()"
-			wv, wok := next()
-			gv, gok := b.rem()
-			if gok != wok || gv != wv {
-				return pbt.Fail("%s op %d: %s = (%v,%v), want (%v,%v); model before the call (oldest first): %v", c.Kind, i, what, gv, gok, wv, wok, model)
-			}
-			if wok {
-				removals++
-				if fifo {
-					model = model[1:]
-				} else {
-					model = model[:len(model)-1]
-				}
-				if len(model) == 0 {
-					drains++
-					pendingDrain = true
-				}
-			} else {
-				emptyRemove = true
-			}
+			m = e.remove(i)
 		case opPeek:
-			what = "Peek()"
-			wv, wok := next()
-			gv, gok := b.peek()
-			if gok != wok || gv != wv {
-				return pbt.Fail("%s op %d: Peek() = (%v,%v), want (%v,%v); model (oldest first): %v", c.Kind, i, gv, gok, wv, wok, model)
-			}
-			if !wok {
-				emptyPeek = true
-			}
+			m = e.peek(i)
 		case opLen:
-			what = "Len()"
-			if got := b.size(); got != len(model) {
-				return pbt.Fail("%s op %d: Len() = %d, want %d; model: %v", c.Kind, i, got, len(model), model)
-			}
+			m = e.length(i)
 		}
-		evals++
-		if m := check(i, what); m != "" {
+		if m != "" {
 			return pbt.Fail("%s", m)
 		}
 	}
-	out := pbt.Outcome{Evals: evals}
-	out.NonTrivial = len(c.Ops) >= 10 && drainsRefilled >= 2
+	s := e.st()
+	out := pbt.Outcome{Evals: s.evals}
+	out.NonTrivial = len(c.Ops) >= 10 && s.drainsRefilled >= 2
 	out.Labels = append(out.Labels, "kind="+c.Kind)
+	if c.Quiet {
+		out.Labels = append(out.Labels, "quiet")
+	}
 	switch {
-	case drainsRefilled >= 2:
+	case s.drainsRefilled >= 2:
 		out.Labels = append(out.Labels, "drain+refill>=2")
-	case drainsRefilled == 1:
+	case s.drainsRefilled == 1:
 		out.Labels = append(out.Labels, "drain+refill=1")
 	default:
 		out.Labels = append(out.Labels, "drain+refill=0")
 	}
-	if drains > 0 {
+	if s.drains > 0 {
 		out.Labels = append(out.Labels, "drained-to-empty")
 	}
-	if emptyRemove {
+	if s.emptyRemove {
 		out.Labels = append(out.Labels, "remove-on-empty")
 	}
-	if emptyPeek {
+	if s.emptyPeek {
 		out.Labels = append(out.Labels, "peek-on-empty")
 	}
-	if zeroInserted {
+	if s.zeroInserted {
 		out.Labels = append(out.Labels, "zero-value-inserted")
 	}
 	switch {
-	case maxLen >= 8:
-		out.Labels = append(out.Labels, "maxlen>=8")
-	case maxLen >= 3:
+	case s.maxLen >= 65:
+		out.Labels = append(out.Labels, "maxlen>=65")
+	case s.maxLen >= 33:
+		out.Labels = append(out.Labels, "maxlen=33..64")
+	case s.maxLen >= 8:
+		out.Labels = append(out.Labels, "maxlen=8..32")
+	case s.maxLen >= 3:
 		out.Labels = append(out.Labels, "maxlen=3..7")
 	default:
 		out.Labels = append(out.Labels, "maxlen<3")
@@ -238,19 +364,24 @@ func run[E comparable](c Case, b box[E], fifo bool, conv func(int) E) pbt.Outcom
 	default:
 		out.Labels = append(out.Labels, "ops<10")
 	}
-	if removals >= 5 {
+	if s.removals >= 5 {
 		out.Labels = append(out.Labels, "removals>=5")
 	}
 	return out
 }
 
-// genOps builds an op list (<= 80) out of bursts: fill, drain-to-empty (plus
+// genOps builds an op list (<= maxOps) out of bursts: fill, drain-to-empty (plus
 // extra removals on the empty container), partial drain, mixed, observers. The
-// generator tracks the size so that "drain" bursts really reach empty.
+// generator tracks the size so that "drain" bursts really reach empty. One case in
+// five uses long fills (up to 70 per burst) so that sizes beyond 32 and 64 occur.
 func genOps(t *rapid.T) []Op {
 	var ops []Op
 	size := 0
 	id := 0
+	maxOps, maxFill := 80, 9
+	if rapid.IntRange(0, 4).Draw(t, "long") == 0 {
+		maxOps, maxFill = 260, 70
+	}
 	ins := func() {
 		id++
 		v := id
@@ -267,17 +398,17 @@ func genOps(t *rapid.T) []Op {
 		}
 	}
 	nb := rapid.IntRange(2, 16).Draw(t, "bursts")
-	for b := 0; b < nb && len(ops) < 80; b++ {
+	for b := 0; b < nb && len(ops) < maxOps; b++ {
 		switch rapid.SampledFrom([]int{0, 0, 0, 1, 1, 1, 2, 3, 3, 4}).Draw(t, "burst") {
 		case 0: // fill
-			for k := rapid.IntRange(1, 9).Draw(t, "fill"); k > 0 && len(ops) < 80; k-- {
+			for k := rapid.IntRange(1, maxFill).Draw(t, "fill"); k > 0 && len(ops) < maxOps; k-- {
 				ins()
 			}
 		case 1: // drain to empty, then poke the empty container
-			for size > 0 && len(ops) < 80 {
+			for size > 0 && len(ops) < maxOps {
 				rem()
 			}
-			for k := rapid.IntRange(0, 2).Draw(t, "extra"); k > 0 && len(ops) < 80; k-- {
+			for k := rapid.IntRange(0, 2).Draw(t, "extra"); k > 0 && len(ops) < maxOps; k-- {
 				if rapid.Bool().Draw(t, "peek") {
 					ops = append(ops, Op{K: opPeek})
 				} else {
@@ -285,11 +416,11 @@ func genOps(t *rapid.T) []Op {
 				}
 			}
 		case 2: // partial drain
-			for k := rapid.IntRange(1, 4).Draw(t, "part"); k > 0 && len(ops) < 80; k-- {
+			for k := rapid.IntRange(1, maxFill/2).Draw(t, "part"); k > 0 && len(ops) < maxOps; k-- {
 				rem()
 			}
 		case 3: // mixed
-			for k := rapid.IntRange(1, 10).Draw(t, "mixed"); k > 0 && len(ops) < 80; k-- {
+			for k := rapid.IntRange(1, 10).Draw(t, "mixed"); k > 0 && len(ops) < maxOps; k-- {
 				switch rapid.IntRange(0, 5).Draw(t, "m") {
 				case 0, 1, 2:
 					ins()
@@ -306,37 +437,45 @@ func genOps(t *rapid.T) []Op {
 	return ops
 }
 
-var queueKinds = []string{"queue", "queue-str"}
-var stackKinds = []string{"stack-nil", "stack-empty", "stack-cap", "stack-str"}
+// kindsOf lists "<container>/<elem>" for the given containers and every element type.
+func kindsOf(conts ...string) []string {
+	var out []string
+	for _, c := range conts {
+		for _, et := range elemTypes {
+			out = append(out, c+"/"+et.name)
+		}
+	}
+	return out
+}
+
+var queueKinds = kindsOf("queue")
+var stackKinds = kindsOf("stack-nil", "stack-empty", "stack-cap", "stack-cap100")
+
+const ruleBursts = "op list <= 80 (one case in five: <= 260 with fills up to 70, so that sizes beyond 32 and 64 occur) built from bursts (fill, drain to empty + 0..2 calls on the empty container, " +
+	"partial drain, mixed, observers), values are unique ids with 5% zero values, one case in eight is quiet; "
 
 var specQueue = pbt.Register(&pbt.Spec[Case]{
-	Property: "C16", Name: "C16.queue", Rule: "rapid: Queue kinds, op list <= 80 built from bursts (fill 1..9, drain to empty + 0..2 calls on the empty container, partial drain, mixed, observers), values are unique ids with 5% zero values; " + rule,
+	Property: "C16", Name: "C16.queue", Rule: "rapid: Queue of every element type, " + ruleBursts + rule + ruleNT,
 	Gen: func(t *rapid.T) Case {
-		return Case{Kind: rapid.SampledFrom(queueKinds).Draw(t, "kind"), Ops: genOps(t)}
+		return Case{Kind: rapid.SampledFrom(queueKinds).Draw(t, "kind"), Quiet: rapid.IntRange(0, 7).Draw(t, "quiet") == 0, Ops: genOps(t)}
 	},
 	Run: Run, Quick: 30000, Thorough: 200000,
 })
 
 var specStack = pbt.Register(&pbt.Spec[Case]{
-	Property: "C16", Name: "C16.stack", Rule: "rapid: Stack kinds, op list <= 80 built from bursts (fill 1..9, drain to empty + 0..2 calls on the empty container, partial drain, mixed, observers), values are unique ids with 5% zero values; " + rule,
+	Property: "C16", Name: "C16.stack", Rule: "rapid: Stack (nil, empty, capacity 4, capacity 100) of every element type, " + ruleBursts + rule + ruleNT,
 	Gen: func(t *rapid.T) Case {
-		return Case{Kind: rapid.SampledFrom(stackKinds).Draw(t, "kind"), Ops: genOps(t)}
+		return Case{Kind: rapid.SampledFrom(stackKinds).Draw(t, "kind"), Quiet: rapid.IntRange(0, 7).Draw(t, "quiet") == 0, Ops: genOps(t)}
 	},
 	Run: Run, Quick: 30000, Thorough: 200000,
 })
 
-// Exhaustive small scope: every sequence over {Insert, Remove, Peek} up to a
-// length bound, for every kind (Len is observed after every call anyway).
+// enumSeqs yields every sequence over {Insert, Remove, Peek} of length 0..maxLen for every given kind.
 // Inserted values are 1,2,3,... except that the second insertion is the zero value.
-var specEnum = pbt.Register(&pbt.Spec[Case]{
-	Property: "C16", Name: "C16.enum", Rule: "exhaustive: every sequence over {Insert, Remove, Peek} of length 0..10 (thorough: 0..12) for each of the 6 container kinds; inserted values are 1,0,3,4,... (the 2nd insertion is the zero value); " + rule,
-	Enum: func(shard, shards int, tier string, yield func(Case) bool) {
-		maxLen := 10
-		if tier == "thorough" {
-			maxLen = 12
-		}
-		idx := 0
-		for _, kind := range kinds {
+func enumSeqs(kinds []string, quiet []bool, maxLen int, shard, shards int, yield func(Case) bool) {
+	idx := 0
+	for _, kind := range kinds {
+		for _, q := range quiet {
 			for l := 0; l <= maxLen; l++ {
 				total := 1
 				for i := 0; i < l; i++ {
@@ -362,17 +501,64 @@ var specEnum = pbt.Register(&pbt.Spec[Case]{
 							}
 						}
 					}
-					if !yield(Case{Kind: kind, Ops: ops}) {
+					if !yield(Case{Kind: kind, Quiet: q, Ops: ops}) {
 						return
 					}
 				}
 			}
 		}
+	}
+}
+
+// Exhaustive small scope: every sequence over {Insert, Remove, Peek} up to a
+// length bound, for the six first-generation kinds (Len is observed after every call anyway).
+var specEnum = pbt.Register(&pbt.Spec[Case]{
+	Property: "C16", Name: "C16.enum", Rule: "exhaustive: every sequence over {Insert, Remove, Peek} of length 0..10 (thorough: 0..12) for each of the 6 container kinds Queue[int], Queue[string], " +
+		"nil/empty/capacity-4 Stack[int], nil Stack[string], and the same sequences of length 0..9 (thorough: 0..11) as quiet cases; inserted values are 1,0,3,4,... (the 2nd insertion is the zero value); " + rule + ruleNT,
+	Enum: func(shard, shards int, tier string, yield func(Case) bool) {
+		maxLen := 10
+		if tier == "thorough" {
+			maxLen = 12
+		}
+		ok := true
+		enumSeqs(legacyKinds, []bool{false}, maxLen, shard, shards, func(c Case) bool { ok = yield(c); return ok })
+		if ok {
+			enumSeqs(legacyKinds, []bool{true}, maxLen-1, shard, shards, yield)
+		}
 	},
 	Run: Run, Exhaustive: true,
 })
 
+// The same small scope for every container x element type (shorter sequences).
+var specTypes = pbt.Register(&pbt.Spec[Case]{
+	Property: "C16", Name: "C16.types", Rule: "exhaustive: every sequence over {Insert, Remove, Peek} of length 0..7 (thorough: 0..9) for each container (Queue, nil/empty/capacity-4/capacity-100 Stack) x each of the 25 element types, " +
+		"each both observed after every call and quiet; inserted values are 1,0,3,4,... (the 2nd insertion is the zero value); " + rule + "; non-trivial = at least 5 ops, at least 2 insertions and 2 removals",
+	Enum: func(shard, shards int, tier string, yield func(Case) bool) {
+		maxLen := 7
+		if tier == "thorough" {
+			maxLen = 9
+		}
+		enumSeqs(kindsOf(containers...), []bool{false, true}, maxLen, shard, shards, yield)
+	},
+	Run: func(c Case) pbt.Outcome {
+		out := Run(c)
+		ins, rem := 0, 0
+		for _, op := range c.Ops {
+			switch op.K {
+			case opInsert:
+				ins++
+			case opRemove:
+				rem++
+			}
+		}
+		out.NonTrivial = out.Violation == "" && len(c.Ops) >= 5 && ins >= 2 && rem >= 2
+		return out
+	},
+	Exhaustive: true,
+})
+
 func TestC16Enum(t *testing.T)  { pbt.Check(t, specEnum) }
+func TestC16Types(t *testing.T) { pbt.Check(t, specTypes) }
 func TestC16Queue(t *testing.T) { pbt.Check(t, specQueue) }
 func TestC16Stack(t *testing.T) { pbt.Check(t, specStack) }
 func TestReplay(t *testing.T)   { pbt.Replay(t) }
